@@ -28,7 +28,13 @@ Inductive ctx :=
 | KAndL (k : ctx) (y : cond)       (* left operand of an AND (at k) whose right operand is y *)
 | KAndR (k : ctx)
 | KElseL (k : ctx) (y : cond)      (* left operand of an ElseIf (at k) whose right operand is y *)
-| KElseR (k : ctx).
+| KElseR (k : ctx)
+| KSub (k : ctx) (sel : list term).   (* the condition of a nested an(entity/set_of(sel, ...)) standing at k *)
+
+(* what the descriptor / quantifier above the conditions root require: every selected expression itself and its variables *)
+Definition own_key (t : term) : list key :=
+  match t with TVar x => [x] | TFlat id _ | TConcat id _ => [id] | _ => [] end.
+Definition req_top (sel : list term) : list key := flat_map (fun t => own_key t ++ tvars t) sel.
 
 (* parent._required_variables_from_child_(node at k, when_true = t); None = "either" *)
 Fixpoint req_from (k : ctx) (t : option bool) : list key :=
@@ -38,12 +44,8 @@ Fixpoint req_from (k : ctx) (t : option bool) : list key :=
   | KAndR k' => (if and_adds_right false t then [] else []) ++ req_from k' (and_parent_arg false t)
   | KElseL k' y => (if or_adds_right true t then cvars y else []) ++ req_from k' (or_parent_arg true t)
   | KElseR k' => req_from k' (or_parent_arg false t)
+  | KSub k' sel => req_top sel ++ req_from k' t       (* QueryObjectDescriptor / ResultQuantifier: the selection and what the parent requires *)
   end.
-
-(* what the descriptor / quantifier above the conditions root require: every selected expression itself and its variables *)
-Definition own_key (t : term) : list key :=
-  match t with TVar x => [x] | TFlat id _ | TConcat id _ => [id] | _ => [] end.
-Definition req_top (sel : list term) : list key := flat_map (fun t => own_key t ++ tvars t) sel.
 
 (* ---- SeenSet as _is_duplicate_output_ uses it (never asked about an empty assignment) ---- *)
 Definition restr (R : list key) (b : binding) : binding := filter (fun kv => existsb (Nat.eqb (fst kv)) R) b.
@@ -98,7 +100,12 @@ Section D.
         | _ => let (out, st) := smap (else_step (req_from k (Some true)) (fun b1 s1 => evalD y (KElseR k) b1 ywf s1)) ls (d_sT s, d_r s) in
                (out, DN (fst st) (d_sF s) sl (snd st))
         end
-    | _ => (eval h dom c b ywf, s)      (* comparisons, mappings in condition position; for_all and nested queries: as the P-model *)
+    | CSub sel c' =>
+        (* a nested query in condition position: its condition with its own operators' seen sets, then its selection bound *)
+        let (rows, sl) := evalD c' (KSub k sel) b ywf (d_l s) in
+        (flat_map (fun p : binding * bool => map (fun b' => (b', snd p)) (bind_selected h dom sel (fst p))) rows,
+         DN (d_sT s) (d_sF s) sl (d_r s))
+    | _ => (eval h dom c b ywf, s)      (* comparisons, mappings in condition position; for_all: as the P-model *)
     end.
 
   Definition run_queryD (sel : list term) (c : option cond) : list (list val) :=
@@ -118,5 +125,6 @@ Fixpoint dfrag (c : cond) : bool :=
   | CCmp _ l r => dterm l && dterm r
   | CTruth t _ => dterm t
   | CAnd a b | CElseIf a b => dfrag a && dfrag b
-  | CForAll _ _ | CSub _ _ => false
+  | CForAll _ _ => false
+  | CSub sel c' => forallb dterm sel && dfrag c'
   end.
